@@ -137,7 +137,26 @@ impl<'a> FGen<'a> {
         let w: Vec<&str> = line.split_whitespace().collect();
         let kind = w.get(1).copied().unwrap_or("");
         if obs.starts_with("R panic") {
-            let at = obs.split(" at=").nth(1).unwrap_or("?");
+            // the panic site; numbers in the message (fixed's "<value> overflows") are not part of the signature
+            let at_raw = obs.split(" at=").nth(1).unwrap_or("?");
+            let mut at = String::new();
+            let mut digits = 0;
+            for ch in at_raw.chars() {
+                if ch.is_ascii_digit() {
+                    digits += 1;
+                    if digits == 5 {
+                        at.truncate(at.len() - 4);
+                        at.push('N');
+                    }
+                    if digits < 5 {
+                        at.push(ch);
+                    }
+                } else {
+                    digits = 0;
+                    at.push(ch);
+                }
+            }
+            let at = at.as_str();
             let what = if matches!(self.ex.f, Filt::None) && self.cfg.is_some() { "kalman" } else { "basic" };
             self.out.count(&format!("filt.panic.{what}"));
             self.out.oracle("C03", &format!("filter-panic@{at}"), &format!("{line} -> {obs}"));
